@@ -9,6 +9,7 @@
 -/
 import PolyVerif.Model.March
 import PolyVerif.Lemmas.MarchTableFacts
+import PolyVerif.Lemmas.MarchVolume
 import PolyVerif.Gen.MarchInterp
 import PolyVerif.Lemmas.RealScalar
 import Mathlib.Topology.Order.IntermediateValue
@@ -1701,6 +1702,344 @@ example : MarchHyp (fun b => if b = ((0 : Int), (0 : Int), (0 : Int)) then some 
 /-- the code's inside test is `cubeCorners[i] < cutoff` for all eight corners (the extractor rejects any other test):
     `signOf` / `val` in the theorems above is the code's predicate -/
 theorem table_inside_tests : insideTests = List.range 8 := by decide
+
+/-! ## 12. The cell solid has non-negative volume for ALL interpolation parameters -/
+
+/-- parameter assignment with one entry replaced -/
+def upd (τ : Nat → ℝ) (e : Nat) (x : ℝ) : Nat → ℝ := fun i => if i = e then x else τ i
+
+/-- `f` is affine in parameter `e` -/
+def AffineIn (f : (Nat → ℝ) → ℝ) (e : Nat) : Prop :=
+  ∀ τ x, f (upd τ e x) = (1 - x) * f (upd τ e 0) + x * f (upd τ e 1)
+
+/-- all corners of the parameter cube over the edges `E` (other parameters as in `τ`) -/
+def allCorners : List Nat → (Nat → ℝ) → List (Nat → ℝ)
+  | [], τ => [τ]
+  | e :: r, τ => allCorners r (upd τ e 0) ++ allCorners r (upd τ e 1)
+
+theorem upd_self_aux (τ : Nat → ℝ) (e : Nat) : upd τ e (τ e) = τ := by
+  funext i; unfold upd; split_ifs with h <;> simp [h]
+
+/-- a multi-affine function that is ≥ 0 at the corners of the cube is ≥ 0 on the closed cube -/
+theorem multiaffine_nonneg_aux (f : (Nat → ℝ) → ℝ) (E : List Nat) (hA : ∀ e ∈ E, AffineIn f e) :
+    ∀ τ : Nat → ℝ, (∀ e ∈ E, 0 ≤ τ e ∧ τ e ≤ 1) → (∀ σ ∈ allCorners E τ, 0 ≤ f σ) → 0 ≤ f τ := by
+  induction E with
+  | nil => intro τ _ h; exact h τ (by simp [allCorners])
+  | cons e r ih =>
+    intro τ hτ hc
+    have ihr := ih (fun e' he' => hA e' (List.mem_cons_of_mem _ he'))
+    have hb : ∀ b : ℝ, 0 ≤ b ∧ b ≤ 1 → ∀ e' ∈ r, 0 ≤ upd τ e b e' ∧ upd τ e b e' ≤ 1 := by
+      intro b hb e' he'
+      unfold upd; split_ifs
+      · exact hb
+      · exact hτ e' (List.mem_cons_of_mem _ he')
+    have h0 := ihr (upd τ e 0) (hb 0 ⟨le_refl _, zero_le_one⟩)
+      (fun σ hσ => hc σ (by simp only [allCorners, List.mem_append]; exact Or.inl hσ))
+    have h1 := ihr (upd τ e 1) (hb 1 ⟨zero_le_one, le_refl _⟩)
+      (fun σ hσ => hc σ (by simp only [allCorners, List.mem_append]; exact Or.inr hσ))
+    have hx := hτ e List.mem_cons_self
+    have := hA e List.mem_cons_self τ (τ e)
+    rw [upd_self_aux] at this
+    rw [this]
+    have a1 : 0 ≤ 1 - τ e := by linarith [hx.2]
+    nlinarith [mul_nonneg a1 h0, mul_nonneg hx.1 h1]
+
+/-- … and > 0 in the open cube as soon as one corner value is positive -/
+theorem multiaffine_pos_aux (f : (Nat → ℝ) → ℝ) (E : List Nat) (hA : ∀ e ∈ E, AffineIn f e) :
+    ∀ τ : Nat → ℝ, E.Nodup → (∀ e ∈ E, 0 < τ e ∧ τ e < 1) → (∀ σ ∈ allCorners E τ, 0 ≤ f σ) →
+      (∃ σ ∈ allCorners E τ, 0 < f σ) → 0 < f τ := by
+  induction E with
+  | nil => intro τ _ _ _ h; obtain ⟨σ, hσ, hp⟩ := h; simp [allCorners] at hσ; rw [← hσ]; exact hp
+  | cons e r ih =>
+    intro τ hnd hτ hc hp
+    obtain ⟨her, hndr⟩ := List.nodup_cons.mp hnd
+    have hA' : ∀ e' ∈ r, AffineIn f e' := fun e' he' => hA e' (List.mem_cons_of_mem _ he')
+    have hst : ∀ b : ℝ, ∀ e' ∈ r, 0 < upd τ e b e' ∧ upd τ e b e' < 1 := by
+      intro b e' he'
+      have hne : e' ≠ e := fun h => her (h ▸ he')
+      unfold upd; rw [if_neg hne]; exact hτ e' (List.mem_cons_of_mem _ he')
+    have hbo : ∀ b : ℝ, ∀ e' ∈ r, 0 ≤ upd τ e b e' ∧ upd τ e b e' ≤ 1 :=
+      fun b e' he' => ⟨(hst b e' he').1.le, (hst b e' he').2.le⟩
+    have c0 : ∀ σ ∈ allCorners r (upd τ e 0), 0 ≤ f σ :=
+      fun σ hσ => hc σ (by simp only [allCorners, List.mem_append]; exact Or.inl hσ)
+    have c1 : ∀ σ ∈ allCorners r (upd τ e 1), 0 ≤ f σ :=
+      fun σ hσ => hc σ (by simp only [allCorners, List.mem_append]; exact Or.inr hσ)
+    have n0 := multiaffine_nonneg_aux f r hA' (upd τ e 0) (hbo 0) c0
+    have n1 := multiaffine_nonneg_aux f r hA' (upd τ e 1) (hbo 1) c1
+    have hx := hτ e List.mem_cons_self
+    have := hA e List.mem_cons_self τ (τ e)
+    rw [upd_self_aux] at this
+    rw [this]
+    have a1 : 0 < 1 - τ e := by linarith [hx.2]
+    obtain ⟨σ, hσ, hpos⟩ := hp
+    simp only [allCorners, List.mem_append] at hσ
+    rcases hσ with hσ | hσ
+    · have p0 := ih hA' (upd τ e 0) hndr (hst 0) c0 ⟨σ, hσ, hpos⟩
+      nlinarith [mul_pos a1 p0, mul_nonneg hx.1.le n1]
+    · have p1 := ih hA' (upd τ e 1) hndr (hst 1) c1 ⟨σ, hσ, hpos⟩
+      nlinarith [mul_nonneg a1.le n0, mul_pos hx.1 p1]
+
+/-! ### the real volume of a triangle list of the cell polyhedron -/
+
+/-- position of polyhedron vertex `id` under the parameter assignment `τ` (`τ e` = position of the vertex of cube edge `e`
+    between the low (0) and the high (1) end of the edge) -/
+noncomputable def vposR (τ : Nat → ℝ) (id : Nat) : V3 ℝ :=
+  if id < 12 then V3.Add (ptR (edgeRel id).1) (V3.Scale (ptR (unit (edgeRel id).2)) (τ id)) else ptR (cornerOff (id - 12))
+
+/-- six times the signed volume of a triangle list against the cell's low corner -/
+noncomputable def vol6R (T : List (Nat × Nat × Nat)) (τ : Nat → ℝ) : ℝ :=
+  (T.map fun t => det3 (vposR τ t.1) (vposR τ t.2.1) (vposR τ t.2.2)).sum
+
+theorem vposR_upd_ne_aux (τ : Nat → ℝ) (e : Nat) (x : ℝ) (id : Nat) (h : id ≠ e) : vposR (upd τ e x) id = vposR τ id := by
+  simp [vposR, upd, h]
+
+theorem det_affine_aux (t : Nat × Nat × Nat) (hd : t.1 ≠ t.2.1 ∧ t.1 ≠ t.2.2 ∧ t.2.1 ≠ t.2.2) (e : Nat) :
+    AffineIn (fun τ => det3 (vposR τ t.1) (vposR τ t.2.1) (vposR τ t.2.2)) e := by
+  intro τ x
+  obtain ⟨i, j, k⟩ := t
+  simp only at hd ⊢
+  by_cases hi : i = e
+  · subst hi
+    rw [vposR_upd_ne_aux τ i x j (Ne.symm hd.1), vposR_upd_ne_aux τ i x k (Ne.symm hd.2.1),
+      vposR_upd_ne_aux τ i 0 j (Ne.symm hd.1), vposR_upd_ne_aux τ i 0 k (Ne.symm hd.2.1),
+      vposR_upd_ne_aux τ i 1 j (Ne.symm hd.1), vposR_upd_ne_aux τ i 1 k (Ne.symm hd.2.1)]
+    simp only [vposR, upd, if_true]
+    split_ifs <;> simp only [det3, V3.Dot, V3.Cross, V3.Add, V3.Scale] <;> ring
+  · by_cases hj : j = e
+    · subst hj
+      rw [vposR_upd_ne_aux τ j x i hi, vposR_upd_ne_aux τ j x k (Ne.symm hd.2.2),
+        vposR_upd_ne_aux τ j 0 i hi, vposR_upd_ne_aux τ j 0 k (Ne.symm hd.2.2),
+        vposR_upd_ne_aux τ j 1 i hi, vposR_upd_ne_aux τ j 1 k (Ne.symm hd.2.2)]
+      simp only [vposR, upd, if_true]
+      split_ifs <;> simp only [det3, V3.Dot, V3.Cross, V3.Add, V3.Scale] <;> ring
+    · by_cases hk : k = e
+      · subst hk
+        rw [vposR_upd_ne_aux τ k x i hi, vposR_upd_ne_aux τ k x j hj,
+          vposR_upd_ne_aux τ k 0 i hi, vposR_upd_ne_aux τ k 0 j hj,
+          vposR_upd_ne_aux τ k 1 i hi, vposR_upd_ne_aux τ k 1 j hj]
+        simp only [vposR, upd, if_true]
+        split_ifs <;> simp only [det3, V3.Dot, V3.Cross, V3.Add, V3.Scale] <;> ring
+      · rw [vposR_upd_ne_aux τ e x i hi, vposR_upd_ne_aux τ e x j hj, vposR_upd_ne_aux τ e x k hk,
+          vposR_upd_ne_aux τ e 0 i hi, vposR_upd_ne_aux τ e 0 j hj, vposR_upd_ne_aux τ e 0 k hk,
+          vposR_upd_ne_aux τ e 1 i hi, vposR_upd_ne_aux τ e 1 j hj, vposR_upd_ne_aux τ e 1 k hk]
+        ring
+
+theorem vol6R_affine_aux (T : List (Nat × Nat × Nat))
+    (hd : ∀ t ∈ T, t.1 ≠ t.2.1 ∧ t.1 ≠ t.2.2 ∧ t.2.1 ≠ t.2.2) (e : Nat) : AffineIn (vol6R T) e := by
+  induction T with
+  | nil => intro τ x; simp [vol6R]
+  | cons t T ih =>
+    intro τ x
+    have h1 := det_affine_aux t (hd t List.mem_cons_self) e τ x
+    have h2 := ih (fun t' ht' => hd t' (List.mem_cons_of_mem _ ht')) τ x
+    simp only [vol6R, List.map_cons, List.sum_cons] at h2 ⊢
+    simp only at h1
+    rw [h1, h2]; ring
+
+/-! ### corners of the real cube ↔ the enumerated corner sets -/
+
+theorem corners_agree_aux (E : List Nat) : ∀ (τ : Nat → ℝ) (L : List Nat), E.Nodup → (∀ e ∈ E, e ∉ L) →
+    ∀ σ ∈ allCorners E τ, ∃ M ∈ cornerSets E L,
+      (∀ e ∈ E, σ e = if e ∈ M then 1 else 0) ∧ (∀ e, e ∉ E → σ e = τ e) ∧ (∀ e, e ∉ E → (e ∈ M ↔ e ∈ L)) := by
+  induction E with
+  | nil =>
+    intro τ L _ _ σ hσ
+    simp only [allCorners, List.mem_singleton] at hσ
+    exact ⟨L, by simp [cornerSets], by simp, fun e _ => by rw [hσ], fun e _ => Iff.rfl⟩
+  | cons e r ih =>
+    intro τ L hnd hL σ hσ
+    obtain ⟨her, hndr⟩ := List.nodup_cons.mp hnd
+    have heL : e ∉ L := hL e List.mem_cons_self
+    simp only [allCorners, List.mem_append] at hσ
+    rcases hσ with hσ | hσ
+    · obtain ⟨M, hM, h1, h2, h3⟩ := ih (upd τ e 0) L hndr (fun e' he' => hL e' (List.mem_cons_of_mem _ he')) σ hσ
+      refine ⟨M, by simp only [cornerSets, List.mem_append]; exact Or.inl hM, ?_, ?_, ?_⟩
+      · intro e' he'
+        rcases List.mem_cons.mp he' with rfl | he'
+        · have : e' ∉ M := fun h => heL ((h3 e' her).mp h)
+          rw [h2 e' her, if_neg this]; simp [upd]
+        · exact h1 e' he'
+      · intro e' he'
+        have hne : e' ≠ e := fun h => he' (h ▸ List.mem_cons_self)
+        rw [h2 e' (fun h => he' (List.mem_cons_of_mem _ h))]; simp [upd, hne]
+      · intro e' he'; exact h3 e' (fun h => he' (List.mem_cons_of_mem _ h))
+    · obtain ⟨M, hM, h1, h2, h3⟩ := ih (upd τ e 1) (e :: L) hndr
+        (fun e' he' h => by
+          rcases List.mem_cons.mp h with rfl | h
+          · exact her he'
+          · exact hL e' (List.mem_cons_of_mem _ he') h) σ hσ
+      refine ⟨M, by simp only [cornerSets, List.mem_append]; exact Or.inr hM, ?_, ?_, ?_⟩
+      · intro e' he'
+        rcases List.mem_cons.mp he' with rfl | he'
+        · have : e' ∈ M := (h3 e' her).mpr List.mem_cons_self
+          rw [h2 e' her, if_pos this]; simp [upd]
+        · exact h1 e' he'
+      · intro e' he'
+        have hne : e' ≠ e := fun h => he' (h ▸ List.mem_cons_self)
+        rw [h2 e' (fun h => he' (List.mem_cons_of_mem _ h))]; simp [upd, hne]
+      · intro e' he'
+        have hne : e' ≠ e := fun h => he' (h ▸ List.mem_cons_self)
+        rw [h3 e' (fun h => he' (List.mem_cons_of_mem _ h))]
+        simp [hne]
+
+/-! ### value at a corner = the kernel-evaluated integer -/
+
+theorem vposR_corner_aux (σ : Nat → ℝ) (M : List Nat) (id : Nat)
+    (h : id < 12 → σ id = if id ∈ M then 1 else 0) : vposR σ id = ptR (vposI M id) := by
+  unfold vposR vposI vposIk
+  by_cases h12 : id < 12
+  · simp only [h12, if_true, h h12]
+    by_cases hm : id ∈ M
+    · have hc : M.contains id = true := List.contains_iff_mem.mpr hm
+      simp only [hm, hc, if_true, ptR, V3.Add, V3.Scale, V3.mk.injEq]
+      refine ⟨?_, ?_, ?_⟩ <;> (push_cast; ring)
+    · have hc : M.contains id = false := by
+        cases hcc : M.contains id with
+        | false => rfl
+        | true => exact absurd (List.contains_iff_mem.mp hcc) hm
+      simp only [hm, hc, if_false, Bool.false_eq_true, ptR, V3.Add, V3.Scale, V3.mk.injEq]
+      refine ⟨?_, ?_, ?_⟩ <;> (push_cast; ring)
+  · simp only [h12, if_false]
+
+theorem det3_cast_aux (a b c : Pt) : det3 (ptR a) (ptR b) (ptR c) = ((det3I a b c : Int) : ℝ) := by
+  simp only [det3, det3I, ptR, V3.Dot, V3.Cross]; push_cast; ring
+
+theorem vol6R_corner_aux (T : List (Nat × Nat × Nat)) (σ : Nat → ℝ) (M : List Nat)
+    (h : ∀ t ∈ T, ∀ id, (id = t.1 ∨ id = t.2.1 ∨ id = t.2.2) → id < 12 → σ id = if id ∈ M then 1 else 0) :
+    vol6R T σ = ((vol6I T M : Int) : ℝ) := by
+  induction T with
+  | nil => simp [vol6R, vol6I, sumI]
+  | cons t T ih =>
+    have ht := h t List.mem_cons_self
+    have ih' := ih (fun t' ht' => h t' (List.mem_cons_of_mem _ ht'))
+    simp only [vol6R, vol6I, List.map_cons, List.sum_cons, sumI] at ih' ⊢
+    rw [ih', vposR_corner_aux σ M t.1 (ht _ (Or.inl rfl)), vposR_corner_aux σ M t.2.1 (ht _ (Or.inr (Or.inl rfl))),
+      vposR_corner_aux σ M t.2.2 (ht _ (Or.inr (Or.inr rfl))), det3_cast_aux]
+    push_cast; ring
+
+/-! ### from the fast natural-number evaluation to the integer volume -/
+
+theorem pos_codes_aux (hi : Bool) (id : Nat) (h : id < 20) : vposCk hi id < 8 ∧ codePt (vposCk hi id) = vposIk hi id := by
+  have T := Tab.table_pos_codes
+  rw [List.all_eq_true] at T
+  have := T id (List.mem_range.mpr h)
+  simp only [decide_eq_true_eq] at this
+  cases hi
+  · exact ⟨this.2.1, this.2.2.2⟩
+  · exact ⟨this.1, this.2.2.1⟩
+
+theorem det_codes_aux (a b c : Nat) (ha : a < 8) (hb : b < 8) (hc : c < 8) :
+    (Int.ofNat (detPosC a b c) - Int.ofNat (detNegC a b c)) = det3I (codePt a) (codePt b) (codePt c) := by
+  have T := Tab.table_det_codes
+  rw [List.all_eq_true] at T
+  have := T (a * 64 + b * 8 + c) (List.mem_range.mpr (by omega))
+  simp only [decide_eq_true_eq] at this
+  have e1 : (a * 64 + b * 8 + c) / 64 = a := by omega
+  have e2 : (a * 64 + b * 8 + c) / 8 % 8 = b := by omega
+  have e3 : (a * 64 + b * 8 + c) % 8 = c := by omega
+  rw [e1, e2, e3] at this
+  exact this
+
+theorem volShift_eq_aux (T : List (Nat × Nat × Nat)) (M : List Nat)
+    (hid : ∀ t ∈ T, t.1 < 20 ∧ t.2.1 < 20 ∧ t.2.2 < 20) :
+    Int.ofNat (volShift T M) = 3 * Int.ofNat T.length + vol6I T M := by
+  induction T with
+  | nil => simp [volShift, vol6I, sumN, sumI]
+  | cons t T ih =>
+    have ih' := ih (fun t' ht' => hid t' (List.mem_cons_of_mem _ ht'))
+    obtain ⟨h1, h2, h3⟩ := hid t List.mem_cons_self
+    obtain ⟨a8, ea⟩ := pos_codes_aux (M.contains t.1) t.1 h1
+    obtain ⟨b8, eb⟩ := pos_codes_aux (M.contains t.2.1) t.2.1 h2
+    obtain ⟨c8, ec⟩ := pos_codes_aux (M.contains t.2.2) t.2.2 h3
+    have hd := det_codes_aux _ _ _ a8 b8 c8
+    rw [ea, eb, ec] at hd
+    have hn : detNegC (vposCk (M.contains t.1) t.1) (vposCk (M.contains t.2.1) t.2.1) (vposCk (M.contains t.2.2) t.2.2) < 4 :=
+      Nat.mod_lt _ (by decide)
+    have hd' : Int.ofNat (detPosC (vposCk (M.contains t.1) t.1) (vposCk (M.contains t.2.1) t.2.1) (vposCk (M.contains t.2.2) t.2.2))
+        - Int.ofNat (detNegC (vposCk (M.contains t.1) t.1) (vposCk (M.contains t.2.1) t.2.1) (vposCk (M.contains t.2.2) t.2.2))
+        = det3I (vposI M t.1) (vposI M t.2.1) (vposI M t.2.2) := hd
+    simp only [volShift, vol6I, List.map_cons, sumN, sumI, List.length_cons] at ih' ⊢
+    rw [← hd']
+    generalize detPosC (vposCk (M.contains t.1) t.1) (vposCk (M.contains t.2.1) t.2.1) (vposCk (M.contains t.2.2) t.2.2) = pp at hn hd' ⊢
+    generalize detNegC (vposCk (M.contains t.1) t.1) (vposCk (M.contains t.2.1) t.2.1) (vposCk (M.contains t.2.2) t.2.2) = nn at hn hd' ⊢
+    have hsub : Int.ofNat (3 + pp - nn) = 3 + Int.ofNat pp - Int.ofNat nn := by
+      simp only [Int.ofNat_eq_natCast]; omega
+    simp only [Int.ofNat_eq_natCast] at hsub ih' ⊢
+    push_cast
+    rw [hsub, ih']; ring
+
+theorem solid_sub_poly_aux (bits : List Bool) (t : Nat × Nat × Nat) (h : t ∈ solidTris bits) : t ∈ polyTris bits := by
+  simp only [solidTris, polyTris, capTris, List.mem_append] at h ⊢
+  tauto
+
+theorem corner_value_nonneg_aux (b0 b1 b2 b3 b4 b5 b6 b7 : Bool) (M : List Nat)
+    (hM : M ∈ cornerSets (crossEdges (bits8 b0 b1 b2 b3 b4 b5 b6 b7)) []) :
+    3 * (solidTris (bits8 b0 b1 b2 b3 b4 b5 b6 b7)).length ≤ volShift (solidTris (bits8 b0 b1 b2 b3 b4 b5 b6 b7)) M := by
+  cases b0 <;> cases b1
+  · have := Tab.table_cell_volume_corners_ff b2 b3 b4 b5 b6 b7
+    rw [List.all_eq_true] at this; simpa using this M hM
+  · have := Tab.table_cell_volume_corners_ft b2 b3 b4 b5 b6 b7
+    rw [List.all_eq_true] at this; simpa using this M hM
+  · have := Tab.table_cell_volume_corners_tf b2 b3 b4 b5 b6 b7
+    rw [List.all_eq_true] at this; simpa using this M hM
+  · have := Tab.table_cell_volume_corners_tt b2 b3 b4 b5 b6 b7
+    rw [List.all_eq_true] at this; simpa using this M hM
+
+/-- **The cell solid has non-negative volume for all interpolation parameters.**  For every sign pattern and every
+    position `τ e ∈ [0, 1]` of the vertex of each sign-changing cube edge `e` (0 = low end, 1 = high end), six times the
+    signed volume — against the cell's low corner — of the table's triangles together with the cap triangles of the three
+    high faces is ≥ 0.  (Multi-affine in the ≤ 12 parameters; the 36 450 corner values are kernel-evaluated.) -/
+theorem cell_volume_nonneg (b0 b1 b2 b3 b4 b5 b6 b7 : Bool) (τ : Nat → ℝ)
+    (hτ : ∀ e ∈ crossEdges (bits8 b0 b1 b2 b3 b4 b5 b6 b7), 0 ≤ τ e ∧ τ e ≤ 1) :
+    0 ≤ vol6R (solidTris (bits8 b0 b1 b2 b3 b4 b5 b6 b7)) τ := by
+  have wf := Tab.table_poly_wellformed b0 b1 b2 b3 b4 b5 b6 b7
+  rw [List.all_eq_true] at wf
+  have wf' : ∀ t ∈ solidTris (bits8 b0 b1 b2 b3 b4 b5 b6 b7),
+      (t.1 ≠ t.2.1 ∧ t.1 ≠ t.2.2 ∧ t.2.1 ≠ t.2.2) ∧ (t.1 < 20 ∧ t.2.1 < 20 ∧ t.2.2 < 20) ∧
+      ∀ id, (id = t.1 ∨ id = t.2.1 ∨ id = t.2.2) → id < 12 → id ∈ crossEdges (bits8 b0 b1 b2 b3 b4 b5 b6 b7) := by
+    intro t ht
+    have := wf t (solid_sub_poly_aux _ t ht)
+    simp only [Bool.and_eq_true, bne_iff_ne, ne_eq, decide_eq_true_eq, List.all_cons, List.all_nil, Bool.and_true,
+      Bool.or_eq_true, List.contains_iff_mem] at this
+    obtain ⟨⟨⟨⟨⟨⟨d1, d2⟩, d3⟩, l1⟩, l2⟩, l3⟩, c1, c2, c3⟩ := this
+    refine ⟨⟨d1, d2, d3⟩, ⟨l1, l2, l3⟩, ?_⟩
+    rintro id (rfl | rfl | rfl) h12
+    · rcases c1 with h | h; · omega
+      exact h
+    · rcases c2 with h | h; · omega
+      exact h
+    · rcases c3 with h | h; · omega
+      exact h
+  apply multiaffine_nonneg_aux (vol6R (solidTris (bits8 b0 b1 b2 b3 b4 b5 b6 b7))) (crossEdges (bits8 b0 b1 b2 b3 b4 b5 b6 b7))
+    (fun e _ => vol6R_affine_aux _ (fun t ht => (wf' t ht).1) e) τ hτ
+  intro σ hσ
+  have hnd : (crossEdges (bits8 b0 b1 b2 b3 b4 b5 b6 b7)).Nodup := List.Nodup.filter _ List.nodup_range
+  obtain ⟨M, hM, hag, _, _⟩ := corners_agree_aux _ τ [] hnd (fun _ _ => by simp) σ hσ
+  rw [vol6R_corner_aux _ σ M (fun t ht id hid h12 => hag id ((wf' t ht).2.2 id hid h12))]
+  have h1 := corner_value_nonneg_aux b0 b1 b2 b3 b4 b5 b6 b7 M hM
+  have h2 := volShift_eq_aux (solidTris (bits8 b0 b1 b2 b3 b4 b5 b6 b7)) M (fun t ht => (wf' t ht).2.1)
+  have : (0 : Int) ≤ vol6I (solidTris (bits8 b0 b1 b2 b3 b4 b5 b6 b7)) M := by
+    simp only [Int.ofNat_eq_natCast] at h2; omega
+  exact_mod_cast this
+
+/-- non-vacuity: one inside corner, every vertex at the middle of its edge -/
+example : 0 ≤ vol6R (solidTris (bits8 true false false false false false false false)) (fun _ => 1 / 2) :=
+  cell_volume_nonneg _ _ _ _ _ _ _ _ _ (fun _ _ => by norm_num)
+
+/-- position of the vertex on lattice edge `l` under a global parameter assignment (0 = low end, 1 = high end) -/
+noncomputable def posL (τ : LEdge → ℝ) (l : LEdge) : V3 ℝ := V3.Add (ptR l.1) (V3.Scale (ptR (unit l.2)) (τ l))
+
+/-- the full "enclosed volume is positive" statement in lattice-edge ids — NOT proved.  Proved towards it:
+    `cell_volume_nonneg` (every cell solid has volume ≥ 0 for all parameters), `Tab.table_cell_volume_positive_corner`
+    (some corner of the parameter cube has positive volume unless the cell is all-outside), `emitted_triangle_outward`,
+    `volume_translation_invariant`.  Missing: (i) the strict version of `cell_volume_nonneg` in the open cube (needs the
+    converse corner correspondence), (ii) the sum over the box: the caps of neighbouring cells on their shared face cancel
+    (`table_face_canonical` gives the segments; the edge pieces depend only on the face bits), caps vanish on the boundary
+    layer, and each cell's solid — closed by `polyTris` — may be translated to its own low corner. -/
+def C09_volume_positive_full : Prop :=
+  ∀ (s : Pt → Bool) (o : Pt) (nx ny nz : Nat), BoundaryOutside s o nx ny nz →
+    ∀ τ : LEdge → ℝ, (∀ l, 0 < τ l ∧ τ l < 1) → boxTris s o nx ny nz ≠ [] →
+      0 < volume6 (posL τ) ⟨0, 0, 0⟩ (boxTris s o nx ny nz)
 
 end C09
 end PolyVerif
